@@ -154,7 +154,8 @@ theorem Sealed_index {x idx r : Expr} (hx : Sealed x) (h : index x idx = some r)
     | none => simp [hn] at h
     | some n =>
       simp only [hn, Option.bind_eq_bind, Option.bind_some] at h
-      exact Sealed_of_mem (Sealed_children hx) (List.mem_of_getElem? h)
+      obtain ⟨i, hi⟩ := nth?_some h
+      exact Sealed_of_mem (Sealed_children hx) (List.mem_of_getElem? hi)
   · cases hn : idx.asNumber? with
     | none => simp [hn] at h
     | some n =>
@@ -171,7 +172,8 @@ theorem Sealed_index {x idx r : Expr} (hx : Sealed x) (h : index x idx = some r)
     | none => simp [hn] at h
     | some n =>
       simp only [hn, Option.bind_eq_bind, Option.bind_some] at h
-      exact Sealed_of_mem (Sealed_children hx) (List.mem_of_getElem? h)
+      obtain ⟨i, hi⟩ := nth?_some h
+      exact Sealed_of_mem (Sealed_children hx) (List.mem_of_getElem? hi)
   · cases h
 
 theorem Sealed_reduceBuiltin {b : BKind} {cs : List Expr} {r : Expr} (hn : SealedL cs)
